@@ -461,6 +461,8 @@ func TestReplay(t *testing.T) {
 		}
 	case "sweeprace":
 		replaySweepRace(t, c, doc.Data)
+	case "roles":
+		replayRoles(t, c, doc.Data)
 	case "probes":
 		c.Case()
 		if bad, err := hugeEXProbe(); err == nil && bad != "" {
